@@ -7,7 +7,7 @@ Fails(r) ==
     IF ~ExactlyOne(r.n_components)
     THEN <<"exactly_one_component_" \o (IF r.n_components = 0 THEN "none_found" ELSE "several_found")>>
     ELSE IF r.noise
-    THEN Clause("within_5_reported_standard_errors", WithinErrors(r))
+    THEN Clause("within_5_reported_standard_errors", WithinErrorsOrTol(r))
     ELSE Clause("position_0.02_pixel", PositionOK(r))
          \o Clause("peak_flux_0.1_percent", PeakOK(r))
          \o Clause("major_axis_0.5_percent", MajorOK(r))
